@@ -43,10 +43,7 @@ def fingerprint(env, ds):
     for d in ds.dims:
         if d in ds.coords:
             out["coords"][d] = [_py(x) for x in ds[d].values]
-    out["attrs"] = {k: (list(v) if hasattr(v, "tolist") else v) for k, v in ds.attrs.items()}
-    for k, v in list(out["attrs"].items()):
-        if hasattr(v, "tolist"):
-            out["attrs"][k] = v.tolist()
+    out["attrs"] = {k: (v.tolist() if hasattr(v, "tolist") else v) for k, v in ds.attrs.items()}
     return out
 
 
